@@ -280,3 +280,29 @@ impl FileInfo {
         self.impls.iter().filter(|i| i.trait_.is_some() && i.self_ty == ty).collect()
     }
 }
+
+/// Integer literals (decimal / hex / octal / binary, digit separators, integer suffixes) that occur in a
+/// token string, in order, by value. Parsed with proc_macro2, so identifiers that contain digits,
+/// float literals and string contents are not mistaken for them.
+pub fn int_literals(tokens: &str) -> Vec<u128> {
+    fn walk(ts: proc_macro2::TokenStream, out: &mut Vec<u128>) {
+        for t in ts {
+            match t {
+                proc_macro2::TokenTree::Group(g) => walk(g.stream(), out),
+                proc_macro2::TokenTree::Literal(l) => {
+                    if let Ok(syn::Lit::Int(i)) = syn::parse_str::<syn::Lit>(&l.to_string()) {
+                        if let Ok(v) = i.base10_parse::<u128>() {
+                            out.push(v);
+                        }
+                    }
+                }
+                _ => {}
+            }
+        }
+    }
+    let mut out = vec![];
+    if let Ok(ts) = tokens.parse::<proc_macro2::TokenStream>() {
+        walk(ts, &mut out);
+    }
+    out
+}
